@@ -80,6 +80,13 @@ def cases(tier, seed):
                         continue
                     out.append(dict(id='agent-%d' % idx, kind='agent', contacts=contacts, who=who, pre_steps=pre[0], mid_steps=pre[1],
                                     bundles=bundles, seed=seed + idx, policy=['fair', 'rr', 'burst'][idx % 3], stagger=[0, 15, 3][idx % 3]))
+    # one busy contact, the others idle (they finish their termination first), with and without the stop_on_close option
+    for contacts in (2, 3):
+        for who in ('A', 'B'):
+            for stop_on_close in (False, True):
+                out.append(dict(id='agent-asym-%d-%s-%s' % (contacts, who, stop_on_close), kind='agent', contacts=contacts, who=who, pre_steps=60, mid_steps=25,
+                                bundles=1, asym=1 if who == 'A' else contacts, seed=seed + contacts, policy='fair' if stop_on_close else 'rr', stagger=0,
+                                stop_on_close=stop_on_close))
     return out
 
 
@@ -533,7 +540,7 @@ def run_case(case):
 
     if case['kind'] == 'agent':
         from vf.props import c18
-        params = {k: case[k] for k in ('contacts', 'who', 'pre_steps', 'mid_steps', 'bundles', 'seed', 'policy', 'stagger')}
+        params = {k: case[k] for k in ('contacts', 'who', 'pre_steps', 'mid_steps', 'bundles', 'seed', 'policy', 'stagger', 'asym', 'stop_on_close') if k in case}
         obs18 = dict(agent_scenarios=0, runs=0, signals_checked=0, returns_checked=0)
         problems = c18.agent_run(params, obs18)
         evaluations += 1
@@ -555,6 +562,11 @@ def run_case(case):
                           lengths=[rng.choice([10, 3000, 20000, 60000]) for _ in range(rng.choice([1, 1, 2]))],
                           refuse=rng.choice([False, False, False, True, 'late', 'late']), peer_terminates=rng.choice(['never', 'after-first-segment', 'on-refuse', 'after-first-segment']),
                           endpoint_terminates_at=rng.choice([None, 1, 2, 5, 20]), policy=rng.choice(['eager', 'fair', 'rr']))
+            if idx % 5 == 4:
+                # many small segments and a peer that reads (and therefore acknowledges) dozens of them at a time: the endpoint
+                # finds 40-150 complete messages in one read, the decisive ones (final XFER_ACK, SESS_TERM) at the very end
+                params.update(seg=100, capacity=rng.choice([4096, 16384]), read=rng.choice([5000, 20000]), mru=2 ** 20, refuse=False,
+                              lengths=[rng.choice([5000, 20000])])
             if params['peer_terminates'] == 'never' and params['endpoint_terminates_at'] is None:
                 params['endpoint_terminates_at'] = 3
             if params['peer_terminates'] == 'on-refuse' and params['refuse'] is not True:
